@@ -26,10 +26,10 @@ PROPERTY = 'C07'
 TECHNIQUE = 'symbolic execution of original, wrapped and immediately exported networks on z3-real inputs; three unsat equivalence queries per program/configuration + concrete mode / state_dict observations'
 FUNCTIONS_ENCODED = ['PIT.__init__', 'pit/graph.py convert(autoimport|import)/autoimport_node/fuse_pit_modules/remove_bn_inplace', 'fuse_consecutive_layers', 'PITConv1d/PITConv2d/PITLinear.__init__/forward (open masks)',
                      'PIT.export (immediate)', 'SuperNet.__init__/forward/export', 'supernet/graph.py convert(import)', 'MPS.__init__ (mode handling)']
-BOUNDS = {'quick': 'T2 (+no linear BN), D2, A1, L1, B1 (BatchNorm applied out of trace order), T1 bias-free, M2 (two-input forward) x fold_bn {off,on} x handed over in {eval, train} mode; SuperNet S(2..3, conv/seq/mix); MPS mode handling on D2/L1',
+BOUNDS = {'quick': 'T2 (+no linear BN), D2, A1, L1, B1 (BatchNorm applied out of trace order), T1 bias-free, M2 (two-input forward), T2 with a strided first conv, T2/D2 with generic BatchNorm statistics (eps=1/8, var in {1/64,1/16,0.3}; outputs compared up to 1e-3 on the box |x|<=2) x fold_bn {off,on} x handed over in {eval, train} mode; SuperNet S(2..3, conv/seq/mix); MPS mode handling on D2/L1',
           'thorough': 'same + K1/K2/W1/F1/X1 programs, user-placed PIT layers with autoconvert off, SuperNet with 2 blocks / block used twice'}
-OUTSIDE = ['train-mode BatchNorm arithmetic (only the flags are observed in train mode)', 'float32 round-off of BN folding with non-dyadic statistics', 'MPS folds BatchNorm into the user layers in place (exempted by the statement)']
-ASSUMPTIONS = ['dyadic BatchNorm statistics (var + eps a power of 4, eps = 0): folding is exact in float32', 'generic dyadic weights']
+OUTSIDE = ['train-mode BatchNorm arithmetic (only the flags are observed in train mode)', 'float32 round-off of BN folding with non-dyadic statistics below 1e-3 absolute on |x|<=2', 'MPS folds BatchNorm into the user layers in place (exempted by the statement)']
+ASSUMPTIONS = ['dyadic BatchNorm statistics (var + eps a power of 4, eps = 0): folding is exact in float32 (exact equality demanded); bn_stats=generic programs: equality up to 1e-3', 'generic dyadic weights']
 INSTANCE_TIMEOUT_S = {'quick': 1200, 'thorough': 3000}
 Q = 60000
 
@@ -92,7 +92,10 @@ pitlib._SHAPES.update({'B1': lambda s: (1, 2), 'B2': lambda s: (2,), 'M2': lambd
 
 def instances(tier, seed):
     progs = [{'fam': 'T2', 'K0': 2, 'K1': 2, 'T': 3}, {'fam': 'T2', 'K0': 2, 'K1': 1, 'T': 2, 'lin_bn': False}, {'fam': 'D2', 'C': 2, 'cin': 2}, {'fam': 'A1', 'K': 2, 'C': 2},
-             {'fam': 'L1'}, {'fam': 'B1'}, {'fam': 'B2'}, {'fam': 'T1', 'K': 2, 'C': 2, 'bias': False}, {'fam': 'M2'}]
+             {'fam': 'L1'}, {'fam': 'B1'}, {'fam': 'B2'}, {'fam': 'T1', 'K': 2, 'C': 2, 'bias': False}, {'fam': 'M2'},
+             # strided conv + BN; BN with eps of the order of the variances (outputs compared up to TOL on the box |x| <= 2)
+             {'fam': 'T2', 'K0': 2, 'K1': 1, 'T': 3, 's0': 2}, {'fam': 'T2', 'K0': 2, 'K1': 1, 'T': 2, 'bn_stats': 'generic'},
+             {'fam': 'D2', 'C': 2, 'cin': 1, 'HW': 2, 'pool': 'none', 'bn_stats': 'generic'}]
     if tier == 'thorough':
         progs += [{'fam': 'K1', 'origins': ['s', 'f']}, {'fam': 'K2', 'T': 2}, {'fam': 'W1', 'nd': 2}, {'fam': 'F1', 'variant': 'module'}, {'fam': 'X1', 'kind': 'conv', 'exclude': 'name'},
                   {'fam': 'D2', 'C': 3, 'cin': 2, 'pool': 'avg'}, {'fam': 'R2'}]
@@ -136,6 +139,24 @@ def _arch(model):
         elif isinstance(m, nn.Linear):
             d[n] = ('Linear', m.in_features, m.out_features, m.bias is not None)
     return d
+
+
+TOL = Fraction(1, 1000)
+
+
+def _differs_by(_y, _r, tol):
+    """-> comparison function: some element differs by more than tol (used where BN folding is computed in float32 on
+    non-dyadic statistics, so that exact equality would demand more than the statement does)"""
+    def f(y, y_ref):
+        ds = []
+        for u, v in zip(st.to_arr(y).reshape(-1), st.to_arr(y_ref).reshape(-1)):
+            d = st.e_sub(u, v)
+            if st.is_sym(d):
+                ds.append(z3.Or(d > tol, d < -tol))
+            elif abs(d) > tol:
+                return True
+        return z3.Or(*ds) if ds else False
+    return f
 
 
 def _sd_equal(a, b):
@@ -271,6 +292,10 @@ def run_instance(p):
     def fn(ex):
         with SymMode():
             xs = _inputs(model, shape, spec, True)
+            if approx:
+                for x in xs:
+                    for v in x.elems():
+                        ex.assume(v >= -2, v <= 2)
             y_ref = ref(*xs)
             y_w = w(*xs)
             y_after = after(*xs)
@@ -279,6 +304,7 @@ def run_instance(p):
                 pitlib.copy_bn_stats(w, exp)
             y_e = exp(*xs)
         return xs, y_ref, y_w, y_after, y_e
+    approx = spec.get('bn_stats') == 'generic'
     ex = Explorer(timeout_ms=Q)
     for pc, (xs, y_ref, y_w, y_after, y_e) in ex.explore(fn):
         for obs, y in (('wrapped_output', y_w), ('user_model_output_after', y_after), ('exported_output', y_e)):
@@ -287,7 +313,7 @@ def run_instance(p):
             if tuple(y.shape) != tuple(y_ref.shape):
                 bad = True
             else:
-                bad = st.any_differs(y, y_ref if not (selftest and obs == 'wrapped_output') else y_ref + 1)
+                bad = (_differs_by(y, y_ref, TOL) if approx else st.any_differs)(y, y_ref if not (selftest and obs == 'wrapped_output') else y_ref + 1)
             if bad is False:
                 res.oblige(True)
                 continue
